@@ -33,6 +33,15 @@ Proof.
   destruct (N.ltb_spec k w); cbn [andb]; [|reflexivity]. f_equal. lia.
 Qed.
 
+(* the value read depends on the field's bits only *)
+Lemma spec_extract_ext b b' first w :
+  (forall i, first <= i < first + w -> bit_at b i = bit_at b' i) ->
+  spec_extract b first w = spec_extract b' first w.
+Proof.
+  intros H. apply N.bits_inj. intros k. rewrite !spec_extract_testbit.
+  destruct (N.ltb_spec k w); cbn [andb]; [|reflexivity]. apply H. lia.
+Qed.
+
 Lemma length_spec_insert b first w v : length (spec_insert b first w v) = length b.
 Proof. unfold spec_insert. now rewrite map_length, seq_length. Qed.
 
